@@ -112,6 +112,8 @@ package sonic
 //@   consumes cb unless armedR(f)
 //@   // at the limit nothing is attempted inline: the operation is deferred to the poller
 //@   assert call file).Read: f.ioc.Dispatched < MaxCallbackDispatch
+//@   // the caller's callback is never run by the start function itself outside the counted window
+//@   assert any call cb: [C14 counted] f.ioc.Dispatched > old(f.ioc.Dispatched)
 //@   ensures [armed] invoked(cb) == 0 ==> f.readReactor.b == b && f.readReactor.readAll == readAll && f.readReactor.cb == cb &&
 //@           f.slot.Handlers[0] == f.readReactor.onRead && 0 <= f.readReactor.readSoFar && f.readReactor.readSoFar <= len(b)
 //@   ensures [depth] f.ioc.Dispatched == old(f.ioc.Dispatched)
@@ -176,6 +178,7 @@ package sonic
 //@   consumes cb unless armedW(f)
 //@   // at the limit nothing is attempted inline: the operation is deferred to the poller
 //@   assert call file).Write: f.ioc.Dispatched < MaxCallbackDispatch
+//@   assert any call cb: [C14 counted] f.ioc.Dispatched > old(f.ioc.Dispatched)
 //@   ensures [armed] invoked(cb) == 0 ==> f.writeReactor.b == b && f.writeReactor.writeAll == writeAll && f.writeReactor.cb == cb &&
 //@           f.slot.Handlers[1] == f.writeReactor.onWrite && 0 <= f.writeReactor.wroteSoFar && f.writeReactor.wroteSoFar <= len(b)
 //@   ensures [depth] f.ioc.Dispatched == old(f.ioc.Dispatched)
